@@ -254,7 +254,7 @@ create_ssi_index(ESL_GETOPTS *go, ESL_SQFILE *sqfp)
   /* Determine if the file was suitable for fast subseq lookup. */
   if (sqfp->data.ascii.bpl > 0 && sqfp->data.ascii.rpl > 0) {
     if ((status = esl_newssi_SetSubseq(ns, fh, sqfp->data.ascii.bpl, sqfp->data.ascii.rpl)) != eslOK) 
-      esl_fatal("Failed to set %s for fast subseq lookup.");
+      esl_fatal("Failed to set %s for fast subseq lookup.", sqfp->filename);
   }
 
   /* Save the SSI file to disk */
@@ -380,7 +380,7 @@ onefetch(ESL_GETOPTS *go, FILE *ofp, char *key, ESL_SQFILE *sqfp)
       if      (status == eslEFORMAT) esl_fatal("Parse failed (sequence file %s):\n%s\n",
 					       sqfp->filename, esl_sqfile_GetErrorBuf(sqfp));
       else if (status == eslEOF)     esl_fatal("Unexpected EOF reading sequence file %s",
-					       status, sqfp->filename);
+					       sqfp->filename);
       else if (status != eslOK)      esl_fatal("Unexpected error %d reading sequence file %s",
 					       status, sqfp->filename);
 
